@@ -87,6 +87,10 @@ class Escape:
         def block(stmts, caught_stack):
             out = set()
             for st in stmts:
+                if isinstance(st, ast.Raise) and getattr(st, '_synthetic', False):
+                    # the default branch written by sa.normalise for a table lookup `T[k]`: an implicit KeyError, and
+                    # implicit raisers of subscripts are out of the scope of this analysis (explicit raises only)
+                    continue
                 if isinstance(st, ast.Raise):
                     if st.exc is None:
                         for en in (caught_stack[-1] if caught_stack else ['Exception']):
